@@ -1406,9 +1406,9 @@ op_map = {
     "Z3_OP_BSDIV0": None,
     "Z3_OP_BSDIV_I": "SDiv",
     "Z3_OP_BSHL": "__lshift__",
-    "Z3_OP_BSMOD": "SMod",
+    "Z3_OP_BSMOD": None,  # two's-complement modulo (sign of the divisor); claripy's SMod is bvsrem
     "Z3_OP_BSMOD0": None,
-    "Z3_OP_BSMOD_I": "SMod",
+    "Z3_OP_BSMOD_I": None,
     "Z3_OP_BSMUL_NO_OVFL": None,
     "Z3_OP_BSMUL_NO_UDFL": None,
     "Z3_OP_BSREM": "SMod",
